@@ -44,6 +44,18 @@ inline void dumpCircuit(std::ostream &os, const Circuit &c) {
   os << "end\n";
 }
 
+// The same circuit somewhere else on the plane (cells and rows shifted; pin offsets are relative to the cell).
+// No property depends on where the die is; a harness that enables it must keep |offset| small enough that the
+// library's own `int` sums of two coordinates stay far from 2^31 (2^26 leaves a factor of 16).
+inline void translate(Circuit &c, long long dx, long long dy) {
+  std::vector<int> x = c.cellX(), y = c.cellY();
+  for (auto &v : x) v += dx;
+  for (auto &v : y) v += dy;
+  std::vector<Row> rows = c.rows();
+  for (auto &r : rows) { r.minX += dx; r.maxX += dx; r.minY += dy; r.maxY += dy; }
+  c.setCellX(x); c.setCellY(y); c.setRows(rows);
+}
+
 inline std::string circuitString(const Circuit &c) {
   std::ostringstream os;
   dumpCircuit(os, c);
